@@ -1,0 +1,20 @@
+//go:build verif
+
+package text
+
+// Contracts for gocv (comment-only; see /verif/DESIGN.md).  No executable code.
+
+// ---- C09: grouping fragments into lines neither loses, invents nor duplicates fragments ----
+// weight(f) is an arbitrary non-negative weight of a fragment (uninterpreted): equality of the total weight for
+// EVERY weight function is multiset equality of the fragments (e.g. weight = number of non-blank characters).
+//@ spec rec prefix func wsum(frs []TextFragment, n int) int = n <= 0 ? 0 : wsum(frs, n - 1) + weight(frs[n-1])
+//@ spec rec prefix func lsum(lines [][]TextFragment, n int) int = n <= 0 ? 0 : lsum(lines, n - 1) + wsum(lines[n-1], len(lines[n-1]))
+
+//@ func groupFragments results (res)
+//@   property C09
+//@   ensures conserved: lsum(res, len(res)) == wsum(fragments, len(fragments))
+//@   ensures no_empty_line: forall j int :: {res[j]} 0 <= j && j < len(res) ==> len(res[j]) > 0
+//@   loop 0:
+//@     invariant 1 <= i && i <= len(fragments) && len(currentLine) > 0
+//@     invariant lsum(lines, len(lines)) + wsum(currentLine, len(currentLine)) == wsum(fragments, i)
+//@     invariant forall j int :: {lines[j]} 0 <= j && j < len(lines) ==> len(lines[j]) > 0
